@@ -302,11 +302,16 @@ def evidence(rc):
                 if it != t:
                     rc.fail(f, c, f"{q}: evidence_card iterates `{it}` but evidence is `{t}`", construct=f"{q} evidence_card order")
     # the parsed lists preserve file order
-    for rel, q, pat in ((BIF, "BIFReader.get_parents", "names[1:]"), (NET, "NETReader.get_parents", "vars_in_potential[1:]"), (XML, "XMLBIFReader.get_parents", 'findall("GIVEN")')):
+    for rel, q, pat in ((BIF, "BIFReader.get_parents", None), (NET, "NETReader.get_parents", None), (XML, "XMLBIFReader.get_parents", 'findall("GIVEN")')):
         f = repo.func(rel, q)
         t = norm(f.node, 10000).replace("'", '"')
-        rc.ob(f"{q} keeps file order: {pat in t}")
-        if pat not in t or "sorted(" in t or "set(" in t:
+        if pat is None:
+            okp = any(tm.is_(n_, "_R[_X[0]] = _X[1:]") is not None and any(dotted(r_.value) == tm.is_(n_, "_R[_X[0]] = _X[1:]")["_R"] for r_ in returns_of(f))
+                      for n_ in ast.walk(f.node) if isinstance(n_, ast.Assign))
+        else:
+            okp = pat in t
+        rc.ob(f"{q} keeps file order: {okp}")
+        if not okp or "sorted(" in t or "set(" in t:
             rc.fail(f, f.node, f"{q} must keep the parents in the order the file lists them", construct=f"{q} file order")
 
 
@@ -336,20 +341,22 @@ def numbers(rc):
     for rel, q, name in ((BIF, "BIFReader.get_probability_grammar", "num_expr"), (NET, "NETReader.get_probability_grammar", "num_expr")):
         f = repo.func(rel, q)
         d = _defs(f)
-        e = d.get(name, [None])[0]
-        words = [c for c in ast.walk(e) if isinstance(c, ast.Call) and call_name(c) == "Word"] if e is not None else []
-        chars = None
+        # the numeric token: a Word whose alphabet contains the digits but not the letters (i.e. not a name token)
+        words = [c for c in ast.walk(f.node) if isinstance(c, ast.Call) and call_name(c) == "Word" and c.args]
+        chars, e = None, None
         for wd in words:
             cs = _word_chars(wd.args[0], PP)
-            if cs and set("0123456789") <= set(cs):
-                chars = cs
+            if cs and set("0123456789") <= set(cs) and not set("abcdxyz") <= set(cs):
+                chars, e = cs, wd
         rc.ob(f"{q}: numeric token alphabet {''.join(sorted(set(chars))) if chars else None}")
         if chars is None or not NEED <= set(chars):
             rc.fail(f, e if e is not None else f.node, f"{q}: the number token does not accept {sorted(NEED - set(chars or ''))}: values such as 1e-12 (what str(float) prints) cannot be read back",
                     construct=f"{q} number alphabet")
     f = repo.func(UAI, "UAIReader.get_grammar")
     d = _defs(f)
-    e = d.get("floatnumber", [None])[0]
+    e = None
+    for n_, b_ in tm.find_all(f.node, "(_FN * int(_nv)).setResultsName('fun_values_' + str(_fu))", nested=True):
+        e = d.get(b_["_FN"], [None])[0]
     ok = False
     if isinstance(e, ast.Call) and call_name(e) == "Regex" and e.args and isinstance(e.args[0], ast.Constant):
         pat = e.args[0].value
@@ -369,7 +376,7 @@ def numbers(rc):
         rc.fail(f, e if e is not None else f.node, "UAI: the number token has no exponent part: a table entry such as 1e-12 makes the whole file unreadable", construct="UAI number token")
     # XMLBIF parses with float()
     x = repo.func(XML, "XMLBIFReader.get_values")
-    if "map(float, table.text.split())" not in norm(x.node, 5000):
+    if not tm.find_all(x.node, "list(map(float, _t.text.split()))", nested=True) and not tm.find_all(x.node, "[float(_x) for _x in _t.text.split()]", nested=True):
         rc.fail(x, x.node, "XMLBIF: table entries must be parsed with float()", construct="XMLBIF float")
     rc.ob("XMLBIF parses table entries with float()")
 
@@ -451,7 +458,8 @@ def dispatch(rc):
         f = repo.func(BN, q)
         fmts = None
         for n in walk_no_nested(f.node):
-            if isinstance(n, ast.Assign) and dotted(n.targets[0]) == "supported_formats" and isinstance(n.value, ast.Set):
+            if isinstance(n, ast.Assign) and isinstance(n.targets[0], ast.Name) and isinstance(n.value, ast.Set) and all(const_str(e) is not None for e in n.value.elts) \
+                    and tm.has(f.node, "filename.split('.')[-1].lower() in _SF", {"_SF": n.targets[0].id}, nested=True):
                 fmts = {const_str(e) for e in n.value.elts}
         tbl = {}
         for s in sites(f.node, lambda n: isinstance(n, ast.Call) and isinstance(n.func, ast.Name) and re.fullmatch(r"\w+(Writer|Reader)", n.func.id or "")):
